@@ -184,6 +184,28 @@ theorem C05_delivered_sound (rcvBuf : Nat) (segs : Stream) :
         · exact hwf
         · exact hall g hg
 
+theorem receiveAllFlat_prefix (rcvBuf : Nat) (bs t : Bytes) :
+    (receiveAllFlat rcvBuf bs).1 <+: (receiveAllFlat rcvBuf (bs ++ t)).1 := by
+  induction hn : bs.length using Nat.strongRecOn generalizing bs with
+  | _ n ih =>
+    rw [receiveAllFlat]
+    split
+    · exact List.nil_prefix
+    · rename_i f r ho
+      obtain ⟨hbs, hwf⟩ := receiveFlat_frame_inv ho
+      have ih' := ih r.length (by rw [← hn]; exact receiveFlat_frame_lt ho) r rfl
+      have : bs ++ t = f ++ (r ++ t) := by rw [hbs, List.append_assoc]
+      rw [this, receiveAllFlat_cons hwf]
+      exact (List.prefix_cons_inj f).mpr ih'
+
+/-- delivery is monotone in the stream: frames delivered from a byte stream are
+    never revoked, reordered or changed by bytes that arrive later — for every
+    stream, every continuation and every segmentation of both -/
+theorem C05_delivery_monotone (rcvBuf : Nat) (s t : Stream) :
+    (receiveAll rcvBuf s).1 <+: (receiveAll rcvBuf (s ++ t)).1 := by
+  rw [receiveAll_flat, receiveAll_flat, List.flatten_append]
+  exact receiveAllFlat_prefix rcvBuf _ _
+
 /-- below 8 the code panics on the slice expression `b[:hdrlen]`, before reading anything -/
 theorem C05_small_buffer (rcvBuf : Nat) (h : rcvBuf < 8) (segs : Stream) :
     receiveAll rcvBuf segs = ([], .panic) := by
